@@ -987,6 +987,20 @@ def clause_plateau_scan(ctx):
     R = Resolver(fn)
     lin = [c for c in calls_in(fn) if call_name(c) in ("np.linspace",
                                                        "numpy.linspace")]
+    if not lin:
+        # a grid with a float step has no fixed number of points
+        for a_ in calls_in(fn):
+            if call_name(a_) in ("np.arange", "numpy.arange") and len(
+                    a_.args) == 3 and not isinstance(
+                    R.resolve(a_.args[2]), ast.Constant):
+                ctx.fail(a_, "the scan grid has the requested number of "
+                         "samples",
+                         "the depth grid of the plateau scan is built with "
+                         f"`{norm(a_)[:70]}`: the length of an arange with a "
+                         "floating-point step depends on rounding, the scan "
+                         "arrays do not have `optimal_fit_num_samples` "
+                         "entries for every sample count")
+                return
     if len(lin) != 1:
         raise Undecided("compute_emodulus_vs_mindelta: expected one "
                         "np.linspace")
